@@ -669,7 +669,7 @@ func main() {
 	w.WatchStall(func() (string, string, interface{}) {
 		return "tparm", fmt.Sprintf("TParm(%q, %v) does not return", curProg, curParams), map[string]interface{}{"prog": curProg, "params": curParams}
 	})
-	w.R.Rule = "(1) every distinct parameterized string of every database entry, of LookupTerminfo's synthesized colour strings and of the sequences tcell prepares for itself (harvested from built screens), over its parameter domain: one parameter 0..1023, two parameters 0..1023 x edge set both ways (thorough: full 1024^2), three or more: each component 0..255 with the others at {0,128,255}, string parameters from a small set; (2) every program of a bounded terminfo(5) grammar (all binary/unary operators over leaf pairs, depth-2 expressions over a sub-alphabet, all printf formats, %i, dynamic/static variables incl. multi-call sequences, all conditional structures to nesting depth 2 (thorough 3) incl. else-if chains) x 72 integer or 6 string parameter vectors; (3) all byte strings up to length 5 (thorough 6) over the 16-symbol alphabet of the language for panics. Oracle: reference interpreter written from terminfo(5), cross-checked against ncurses tparm on integer-only cases. distinct_nontrivial = distinct (program, parameters) cases the manual defines"
+	w.R.Rule = "(1) every distinct parameterized string of every database entry, of LookupTerminfo's synthesized colour strings and of the sequences tcell prepares for itself (harvested from built screens), over its parameter domain: one parameter 0..1023, two parameters 0..1023 x edge set both ways (thorough: full 1024^2), three or more: each component 0..255 with the others at {0,128,255}, string parameters from a small set; (2) every program of a bounded terminfo(5) grammar (all binary/unary operators over leaf pairs, depth-2 expressions over a sub-alphabet, all printf formats, %i, dynamic/static variables incl. multi-call sequences, all conditional structures to nesting depth 2 (thorough 3) incl. else-if chains) x 72 integer or 6 string parameter vectors; (3) all byte strings up to length 5 (thorough 6) over the 16-symbol alphabet of the language for panics; (4) parameters held in every Go integer type (uintptr and named types included), truth values in bool and named bool types, strings in named string types, fewer parameters than mentioned, and %l of strings with multi-byte and invalid UTF-8 content (a byte count). Oracle: reference interpreter written from terminfo(5), cross-checked against ncurses tparm on integer-only cases. distinct_nontrivial = distinct (program, parameters) cases the manual defines"
 	w.R.Assumptions = []string{"cases the manual leaves undefined (stack underflow, type confusion, %c of 0, negative values with unsigned conversions, division by zero) are counted but not compared", "ncurses (python3 curses.tparm) is used only to validate the reference; disagreements are reported, not blamed on tcell"}
 	if *hc.Replay != "" {
 		var rp struct {
